@@ -55,7 +55,9 @@ def limbs_to_int(limbs):
 
 
 def int_to_limbs(n):
-    assert n >= 0
+    """non-negative int -> limbs; anything else is a ValueError (callers turn it into a sentinel)"""
+    if isinstance(n, bool) or not isinstance(n, int) or n < 0:
+        raise ValueError("not a natural number: %r" % (n,))
     out = []
     while n:
         out.append(n % 10000)
@@ -127,6 +129,31 @@ def observe(fn, warn_words):
 
 
 def close(obs, exp, rtol, atol=0.0):
-    if obs is None or isinstance(obs, complex) or math.isnan(obs):
+    """total: anything that is not a finite real number is simply not close"""
+    try:
+        if obs is None or isinstance(obs, (complex, bool, str)) or math.isnan(obs) or math.isinf(obs):
+            return False
+        return bool(abs(obs - exp) <= rtol * abs(exp) + atol)
+    except Exception:
         return False
-    return abs(obs - exp) <= rtol * abs(exp) + atol
+
+
+INT_MAX = 2 ** 31 - 1
+
+
+def quantise(val, qexp, bound=INT_MAX):
+    """observed float -> (ok, round(val * 10^qexp)).  TOTAL: nan, inf, complex, None, arrays, values
+    whose quantised magnitude does not fit `bound` (TLC's JsonDeserialize mangles >= 2^31) give
+    (False, 0) - the trace specifications reject a sample whose `ok` flag is false."""
+    try:
+        if val is None or isinstance(val, (complex, bool, str)):
+            return False, 0
+        f = float(val)
+        if math.isnan(f) or math.isinf(f):
+            return False, 0
+        y = int(round(Fraction(f) * 10 ** qexp))
+        if bound is not None and abs(y) > bound:
+            return False, 0
+        return True, y
+    except Exception:
+        return False, 0
